@@ -12,7 +12,7 @@ git checkout -q -- . 2>/dev/null
 [ -n "$BASE" ] && { git apply "$BASE" || { echo "$ID: baseline does not apply"; exit 3; }; }
 rundemo() { # builds and runs the demo against the worktree, echoes PASS/FAIL(rc)
   rm -rf "$M"/demo "$M"/demo_* "$M"/out 2>/dev/null
-  (cd "$M" && bash ./build.sh "$WT" "$M/out" >/dev/null 2>"$M/build.err") || { echo "BUILDFAIL"; return; }
+  (cd "$M" && { bash ./build.sh "$WT" "$M/out" >/dev/null 2>"$M/build.err" || bash ./build.sh "$WT" >/dev/null 2>"$M/build.err"; }) || { echo "BUILDFAIL"; return; }
   exe=$(find "$M" -maxdepth 2 -type f -perm -u+x ! -name '*.sh' ! -name '*.py' ! -name '*.o' | grep -E "/(demo[^/]*|[^/]*demo)$" | head -1)
   [ -z "$exe" ] && { echo "NOEXE"; return; }
   (cd "$M" && timeout 300 "$exe" >"$M/demo.out" 2>&1); rc=$?
